@@ -117,7 +117,7 @@ func genTP(t *rapid.T) TPCase {
 	var c TPCase
 	c.LogN = rapid.IntRange(4, 10).Draw(t, "logN")
 	m := uint64(2) << c.LogN
-	nq := rapid.IntRange(1, 2).Draw(t, "nQ")
+	nq := rapid.IntRange(1, 4).Draw(t, "nQ")
 	c.Q = h.GenPrimes(t, h.GenSizes(t, nq, h.MinPrimeBits(m)+2, 60, "q"), m, nil, "q")
 	c.Level = rapid.IntRange(0, nq-1).Draw(t, "level")
 	c.F = genF(t)
@@ -176,9 +176,38 @@ func runTP(c TPCase, rec *h.Rec) error {
 			}
 		}
 	}
+	// the same table entry modulo the whole Q: the limbs must be residues of ONE integer
+	if c.Level >= 1 {
+		mods := c.Q[:c.Level+1]
+		Q := h.ProdU(mods)
+		full := h.CRT(F.Coeffs[:c.Level+1], mods)
+		for p := -n / 2; p < n/2; p++ {
+			var have *big.Int
+			if p <= 0 {
+				have = new(big.Int).Set(full[-p])
+			} else {
+				have = new(big.Int).Neg(full[n-p])
+			}
+			want := lookup(g, scale, c.A, c.B, n, p)
+			wi, _ := new(big.Float).SetFloat64(want).Int(nil)
+			d := h.Center(have.Sub(have, wi), Q)
+			if tol := 1 + math.Abs(want)*math.Exp2(-50); math.Abs(bigF(d)) > tol {
+				return h.Failf("C20:InitTestPolynomial:"+c.F.Kind+":multi-prime:limbs-encode-different-integers",
+					"N=%d Q=%v [a,b]=[%g,%g] scale=%g: rotation by p=%d selects an integer at distance 2^%.1f from scale*f(x)=%.3f modulo the whole Q", n, mods, c.A, c.B, scale, p, math.Log2(math.Abs(bigF(d))+1), want)
+			}
+		}
+	}
 	rec.Classf("f=%s", c.F.Kind)
 	rec.Classf("N=%d", n)
 	rec.Classf("level=%d/%d", c.Level, len(c.Q)-1)
+	if c.Level >= 1 {
+		// classes that distinguish a table encoded modulo every prime from one replicated from the first prime
+		if scale*fmax >= float64(c.Q[0]) {
+			rec.Class("multi-prime:scale*fmax>=q0")
+		} else {
+			rec.Class("multi-prime:scale*fmax<q0")
+		}
+	}
 	sym := "asym"
 	if c.A == -c.B {
 		sym = "sym"
@@ -272,11 +301,13 @@ func genBR(t *rapid.T) BRCase {
 	used := map[uint64]bool{}
 	nP := rapid.IntRange(0, 2).Draw(t, "brNP")
 	var qsz []int
-	switch rapid.IntRange(0, 3).Draw(t, "brShape") {
+	switch rapid.IntRange(0, 4).Draw(t, "brShape") {
 	case 0: // single modulus below 2^29 (fast path when there is no P)
 		qsz = []int{rapid.IntRange(24, 28).Draw(t, "brq32")}
 	case 1:
 		qsz = []int{rapid.IntRange(36, 58).Draw(t, "brq1")}
+	case 4:
+		qsz = []int{rapid.IntRange(25, 58).Draw(t, "brq3a"), rapid.IntRange(25, 58).Draw(t, "brq3b"), rapid.IntRange(25, 58).Draw(t, "brq3c")}
 	default:
 		qsz = []int{rapid.IntRange(30, 58).Draw(t, "brq2a"), rapid.IntRange(30, 58).Draw(t, "brq2b")}
 	}
@@ -305,7 +336,7 @@ func genBR(t *rapid.T) BRCase {
 	}
 	c.BR.Xe = h.GenDist(t, false, c.BR.N(), "brXe")
 	if len(c.BR.Q) >= 2 && rapid.IntRange(0, 3).Draw(t, "keyDropQk") == 0 {
-		c.KeyDropQ = 1
+		c.KeyDropQ = rapid.IntRange(1, len(c.BR.Q)-1).Draw(t, "keyDropQ")
 	}
 	if nP > 0 && rapid.IntRange(0, 3).Draw(t, "keyDropPk") == 0 {
 		c.KeyDropP = rapid.IntRange(1, nP).Draw(t, "keyDropP")
